@@ -43,7 +43,7 @@ PROPS = {
     trusted=['serde_json (built with float_roundtrip) prints and parses the JSON data model faithfully; serde derive implements the documented internally-tagged representation'],
  ),
  'C01': dict(
-    modules=['SlacProps.C01', 'SlacProps.C01Text'],
+    modules=['SlacProps.C01', 'SlacProps.C01Text', 'SlacProps.C01Source'], translate=True,
     streams=[
         dict(name='parsekinds', n=n(4, 5), view='okfull', oracle='none'),
         dict(name='parse', n=n(40000, 1000000), view='okfull', oracle='none'),
@@ -58,7 +58,7 @@ PROPS = {
     trusted=['harness renderer (harness/src/lang.rs render) implements the documented precedence table; Unicode tables dumped from Rust std (SlacModel/UnicodeTables.lean)'],
  ),
  'C02': dict(
-    modules=['SlacProps.C02', 'SlacProps.C02Float'],
+    modules=['SlacProps.C02', 'SlacProps.C02Float', 'SlacProps.C01Source'], translate=True,
     streams=[
         dict(name='scanfrag', n=n(3, 4), view='okfull', oracle='none'),
         dict(name='scan', n=n(60000, 2000000), view='okfull', oracle='none'),
